@@ -9,7 +9,7 @@
 From Coq Require Import ZArith QArith List String Bool Arith Lia ZifyBool ZifyNat.
 From PV Require Import C11.Model C17.Model.
 From PV Require Import MiniPy.Syntax MiniPy.Interp MiniTorch.OpsC17 MiniTorch.ValueC17 MiniTorch.LemmasC17 Gen.C17Src
-  C17.SrcRun C17.TieLib.
+  C17.SrcRun C17.TieLib C17.TieAliSpec.
 Import ListNotations.
 Local Open Scope string_scope.
 
@@ -106,31 +106,6 @@ Proof.
 Qed.
 
 (* ---- tokens -> ali ------------------------------------------------------------------------------------------ *)
-(* the guards and the result, as the operations of OpsC17 deliver them on the rows of a (R, 3) tensor *)
-Definition g_neg (rows : list (list Z)) : bool :=
-  existsb (existsb (fun b : bool => b))
-    (map (map (fun e : Z => (e <? 0)%Z)) (map (slice_list (Some 1%Z) None) (slice_list None None rows))).
-Definition g_gap (rows : list (list Z)) : bool :=
-  existsb (fun b : bool => b)
-    (map2 (zcmp KNe) (map (fun r => nth 2 r 0%Z) (slice_list None (Some (-1)%Z) rows))
-                     (map (fun r => nth 1 r 0%Z) (slice_list (Some 1%Z) None rows))).
-Definition col (k : nat) (rows : list (list Z)) : list Z := map (fun r => nth k r 0%Z) (slice_list None None rows).
-Definition reps (rows : list (list Z)) : list Z := map2 Z.sub (col 2 rows) (col 1 rows).
-
-(* T: None = no --feat-dir; Some None = the feature file is missing; Some (Some n) = it has n frames *)
-Definition spec_tok2ali (T : option (option Z)) (rows : list (list Z)) : out tensor :=
-  if g_neg rows then Fail EValue
-  else if negb (nth 1 (nth 0 rows []) 0 =? 0)%Z then Fail EValue
-  else if g_gap rows then Fail EValue
-  else match T with
-       | Some None => Fail EOS
-       | _ =>
-           if match T with Some (Some n) => negb (nth 2 (nth (pred (List.length rows)) rows []) 0 =? n)%Z | _ => false end
-           then Fail EValue
-           else if existsb (fun n => (n <? 0)%Z) (reps rows) then Fail ERuntime
-           else Done (Vec (List.concat (map2 (fun v n => repeat v (Z.to_nat n)) (col 0 rows) (reps rows))))
-       end.
-
 Lemma if_len_eq : forall A a b (X : A), a = b -> (if Nat.eqb a b then Some X else None) = Some X.
 Proof. intros. subst. now rewrite Nat.eqb_refl. Qed.
 
@@ -173,13 +148,25 @@ Definition feat_env (fs : list (val * val)) (b fdv : val) (fl : option (option t
   | Some x => (exists s, fdv = VStr s) /\ dict_get fs (path fdv b) = option_map enc_tensor x
   end.
 
-Definition feat_len (fl : option (option tensor)) : option (option Z) := option_map (option_map tlen) fl.
 
 Lemma size0_tlen : forall f, option_map vnat (size (lten_of f) 0) = Some (VInt (tlen f)).
 Proof. intros [v|w rows]; reflexivity. Qed.
 
+Ltac subst_body := repeat match goal with H : ?x = _ |- context [exec _ ?x _] => subst x end.
 Ltac tstep2 := repeat (progress (tstep; rewrite ?get_col_3_0, ?get_col_3_1, ?get_col_3_2, ?get_cell_first, ?get_cell_last)).
 Ltac stmt2 := open_seq; tstep2.
+
+Lemma reps_len : forall rows, List.length (col 0 rows) = List.length (reps rows).
+Proof. intros. unfold reps, col. rewrite map2_length; now rewrite !map_length. Qed.
+
+(* the last two statements: ali = torch.repeat_interleave(..); torch.save(ali, ..) *)
+Ltac tail_tac :=
+  stmt2; rewrite if_len_eq by (now rewrite !map_length); tstep2;
+  match goal with |- context [map2 Z.sub (map _ (slice_list None None ?x)) _] =>
+    fold (col 2 x); fold (col 1 x); fold (reps x); fold (col 0 x) end;
+  rewrite if_len_eq by apply reps_len; tstep2;
+  match goal with |- context [existsb ?p (reps ?x)] => destruct (existsb p (reps x)) end; [reflexivity|];
+  cbn [bind]; close_stmt; tstep2; reflexivity.
 
 Definition tok2ali_state (b rd ad fdv : val) : state :=
   mkState [("basename", b); ("ref_dir", rd); ("ali_dir", ad); ("feat_dir", fdv); ("torch", torch_module)] [].
@@ -199,7 +186,39 @@ Proof.
   stmt2. rewrite if_len_eq by apply gap_lengths. tstep2.
   fold (g_gap (r :: rows)). destruct (g_gap (r :: rows)); [reflexivity|]. cbn [bind]. close_stmt.
   destruct fl as [[f|]|]; cbn [feat_env feat_len option_map] in *.
-  - destruct FE as [[s ->] FE]. stmt2. close_stmt. stmt2. rewrite FE. tstep2. unfold enc_tensor. rewrite on1v_enc, size0_tlen.
-    tstep2. close_stmt. stmt2.
-    Show.
-Abort.
+  - destruct FE as [[s ->] FE]. open_seq. open_if. tstep2. subst bt.
+    stmt2. close_stmt. stmt2. rewrite FE. tstep2. unfold enc_tensor. rewrite on1v_enc, size0_tlen. tstep2. close_stmt.
+    open_if. tstep2.
+    match goal with |- context [if ?c then exec _ bt _ else _] => destruct c end; subst_body; [reflexivity|].
+    tstep2. close_stmt. tail_tac.
+  - destruct FE as [[s ->] FE]. open_seq. open_if. tstep2. subst_body.
+    stmt2. close_stmt. stmt2. rewrite FE. reflexivity.
+  - subst fdv. open_seq. open_if. tstep2. subst_body. tstep2. close_stmt. tail_tac.
+Qed.
+
+(* ---- tokens -> ali: the whole worker, every stored tensor ---------------------------------------------------- *)
+Lemma early_fail : forall fl t, ali_of_ref None t = Fail EValue -> ali_of_ref_fl fl t = Fail EValue.
+Proof. intros fl t H. unfold ali_of_ref_fl. rewrite H. destruct fl; reflexivity. Qed.
+
+Theorem tok2ali_tie : forall fs b rd ad fdv fl t,
+  wf_tensor t -> dict_get fs (path rd b) = Some (enc_tensor t) -> feat_env fs b fdv fl ->
+  worker_outcome (run_tok2ali fs b rd ad fdv) (path ad b) (ali_of_ref_fl fl t).
+Proof.
+  intros fs b rd ad fdv fl t W H FE. unfold run_tok2ali. apply worker_of_obs. fold (tok2ali_state b rd ad fdv).
+  destruct t as [v|w [|r rows]].
+  - (* a vector: ndim != 2 *)
+    rewrite early_fail by reflexivity. unfold tok2ali_body, tok2ali_state.
+    stmt. close_stmt. stmt. rewrite H. cbn [bind]. close_stmt. unfold enc_tensor, lten_of.
+    stmt. close_stmt. stmt. reflexivity.
+  - (* no rows *)
+    rewrite early_fail by (unfold ali_of_ref; now rewrite orb_true_r). unfold tok2ali_body, tok2ali_state.
+    stmt. close_stmt. stmt. rewrite H. cbn [bind]. close_stmt. unfold enc_tensor, lten_of.
+    stmt. close_stmt. stmt. reflexivity.
+  - destruct (Nat.eq_dec w 3) as [->|Hw].
+    + rewrite <- spec_tok2ali_model by exact W. apply tok2ali_rows; assumption.
+    + rewrite early_fail by (unfold ali_of_ref; apply Nat.eqb_neq in Hw; now rewrite Hw).
+      unfold tok2ali_body, tok2ali_state.
+      stmt. close_stmt. stmt. rewrite H. cbn [bind]. close_stmt. unfold enc_tensor, lten_of.
+      stmt. close_stmt. stmt. rewrite of_nat_S_eqb0. repeat (progress tstep).
+      replace (Z.of_nat w =? 3)%Z with false by lia. reflexivity.
+Qed.
